@@ -657,6 +657,11 @@ class VT:
         g = self.g
         g["last_nl"] = z3.BoolVal(False)
         g["log"] = g["log"] + [(which, list(keys))]
+        if which == "apc" and all(isinstance(x, str) for x in keys):
+            text = "".join(keys)
+            ctrl = text.split(";")[0][1:].split(",")
+            if text.startswith("G") and "a=d" in ctrl:
+                self.kitty_delete(ctrl)
         handler = g.get("on_command")
         if handler is not None:
             handler(self, which, keys)
@@ -665,6 +670,19 @@ class VT:
             text = "".join(x for x in keys if isinstance(x, str))
             if text.startswith("1337;File="):
                 self.iterm2_file(keys)
+
+    def kitty_delete(self, ctrl):
+        """kitty graphics `a=d`: with d=C / d=c every placement that covers the cursor cell is removed.  The machine keeps, of all
+        placements made so far, only the lowest row any of them reaches (`img_bottom`, exclusive): a delete-at-cursor on a row at or
+        below it removes nothing of this output; anything else would delete (part of) the picture just placed."""
+        g = self.g
+        d = next((c[2:] for c in ctrl if c.startswith("d=")), "a")
+        if d in ("C", "c"):
+            if g.get("img_bottom") is not None:
+                self.oblige("C01:delete-at-cursor-removes-nothing-this-output-has-placed", to_z3(g["row"]) >= to_z3(g["img_bottom"]), prop="C01", kind="geometry")
+        elif d in ("A", "a"):
+            if g.get("img_bottom") is not None:
+                self.oblige("C01:delete-all-after-a-placement-of-this-output", False, prop="C01", kind="geometry")
 
     def iterm2_file(self, keys):
         """OSC 1337 ; File = k=v;k=v... : <base64> ST  (inline image).  Places width x height cells at the cursor and moves
@@ -754,6 +772,8 @@ class VT:
                     continue
                 raise Unsupported(f"conditional piece changes structured terminal state {k!r}")
             if v is not before.get(k):
+                if v is None or before.get(k) is None:
+                    raise Unsupported(f"conditional piece sets terminal state {k!r} that has no value on the other side")
                 merged[k] = If(to_z3(it.c), v, before[k])
         merged["log"] = before["log"] + [("cond", it.c, after["log"][len(before["log"]):])]
         self.g = merged
@@ -770,6 +790,7 @@ class VT:
         self.oblige("never-scrolls", to_z3(g["row"]) + to_z3(p.r) - 1 <= to_z3(g["bottom"]), kind="geometry")
         self.oblige("placement-size-positive", z3.And(to_z3(p.c) >= 1, to_z3(p.r) >= 1), kind="geometry")
         g["img"] = (g["row"], g["row"] + p.r, c0, c0 + p.c)
+        g["img_bottom"] = (g["row"] + p.r) if g.get("img_bottom") is None else Max(g["img_bottom"], g["row"] + p.r)
         g["placements"] = g.get("placements", 0) + 1
         g["last_nl"] = z3.BoolVal(False)
         if p.moves_cursor:
